@@ -87,10 +87,9 @@ macro_rules! c04_frechet {
                     Err(Error::ShapeNotPositive) => Some(2),
                 };
                 c04_judge(res, conds);
-                if let Ok(d) = r {
-                    vassert!(d.location.to_bits() == loc.to_bits() && d.scale.to_bits() == scale.to_bits()
-                        && d.shape.to_bits() == shape.to_bits(), "Frechet::new does not store its arguments");
-                }
+                // Frechet has no accessors: how the arguments are stored is not part of C04 (a constructor that
+                // precomputes other constants must not make this file stop compiling); C07 judges the sampler.
+                let _ = &r;
                 kani::cover!(res.is_none(), "Ok reachable");
                 kani::cover!(res == Some(0), "LocationNotFinite reachable");
                 kani::cover!(res == Some(1), "ScaleNotPositive reachable");
